@@ -20,6 +20,8 @@ pub enum Out {
     Ok(String),
     /// `Err(InvalidValueError(msg))`: the raw message.
     Err(String),
+    /// `Err` with the raw message, followed by extra result tokens (printed before `rej=`).
+    ErrWith(String, String),
     NoneV,
     Unsup,
 }
@@ -433,6 +435,14 @@ fn run_line(line: &str) -> String {
                 s
             }
             None => "err ?".into(),
+        },
+        Ok(Out::ErrWith(msg, toks)) => match label_of(&msg) {
+            Some(l) => {
+                let mut s = format!("err {l}{toks}");
+                push_rej(&mut s);
+                s
+            }
+            None => format!("err ?{toks}"),
         },
         Err(payload) => {
             let msg: Option<&str> = if let Some(s) = payload.downcast_ref::<String>() {
